@@ -105,6 +105,21 @@ def run(case):
     variants = {'sources': lambda: lib.build(texts)}
     if len(texts) > 1:
         variants['multidoc'] = lambda: lib.build([''.join(t if t.startswith('--- ') else '---\n' + t for t in texts)])
+    if len(texts) >= 3:
+        # one builder, built in between: k documents, build(), the rest, build() - still the same left-to-right fold
+        k = 1 + int(util.sig(texts), 16) % (len(texts) - 1)
+
+        def incremental():
+            from awesomeyaml.builder import Builder
+            from awesomeyaml.config import Config
+            b = Builder()
+            for t in texts[:k]:
+                b.add_source(t, raw_yaml=True)
+            b.build()
+            for t in texts[k:]:
+                b.add_source(t, raw_yaml=True)
+            return Config(b.build())
+        variants[f'built_after_{k}_then_all'] = incremental
     vio = []
     for name, fn in variants.items():
         got = lib.outcome(fn)
